@@ -49,7 +49,7 @@ class Check:
     """
     def __init__(self, name, harness, engine='S', enforce=None, replace=(), loops=False, flags=(),
                  inputs=(), timeout=None, unwind=None, tier='quick', defines=(), object_bits=None,
-                 expect_fail=(), partition=None, zopts=None, gi_flags=(), replay=None, no_vacuity=False, small=()):
+                 expect_fail=(), partition=None, zopts=None, gi_flags=(), replay=None, no_vacuity=False, small=(), native=None):
         self.__dict__.update(locals())
         del self.__dict__['self']
 
